@@ -392,12 +392,36 @@ CONFIGS = [("log8", 2**32 - 1, 15), ("log16", 2**32 - 1, 1023), ("log8", 1000, 3
            ("log16", 10**6, 100), ("log8", 2**40, 15), ("log16", 70000, 5), ("log8", 5000, 30)]
 
 
+def try_config(kind, mc, nr):
+    """A LogConfig, or None when the constructor refuses the configuration (judged by C18 only)."""
+    try:
+        return LogConfig(kind, mc, nr)
+    except ValueError:
+        return None
+
+
+def configs(report, specs, strict=False):
+    """LogConfigs of the accepted configurations.  All of `specs` are valid (a base > 1 exists); a refusal is
+    a violation for the check that owns constructor behaviour (strict) and a skipped configuration otherwise."""
+    out = []
+    for kind, mc, nr in specs:
+        cf = try_config(kind, mc, nr)
+        if cf is None:
+            if strict:
+                report.violation("the constructor refuses the valid configuration %s(max_count=%d, num_reserved=%d)" % (kind, mc, nr),
+                                 {"kind": "ctor", "signature": {"ctor": "refused"}})
+            report.cov.setdefault("skipped_configs", []).append([kind, str(mc), nr])
+        else:
+            out.append(cf)
+    return out
+
+
 def random_history(rng, focus=None, cfgs=None):
     kind, mc, nr = rng.choice(cfgs or CONFIGS)
     if focus == "ceiling":
         kind, mc, nr = rng.choice([("log8", 300, 0), ("log8", 1000, 3), ("log8", 5000, 30), ("log8", 1000, 15),
                                    ("log8", 300, 40), ("log8", 2000, 100)])
-    cf = LogConfig(kind, mc, nr)
+    cf = try_config(kind, mc, nr) or LogConfig("log8", 2**32 - 1, 15)
     W = rng.choice([1, 1, 2, 2, 3, 4, 8, 16])
     D = rng.choice([1, 1, 2, 3, 4])
     NS = rng.choice([1, 2, 2, 3])
